@@ -22,6 +22,7 @@ import ast
 
 from ..engine.model import AnalysisError, src, walk_own
 from ..engine.flow import Flow, Domain
+from ..engine.inline import Inliner, norm_text, block_env, canon_names, same_tree
 from ..engine.typestate import EventDomain, FactDomain
 from .c05 import r050
 
@@ -190,6 +191,78 @@ def pose_walk(load, walk, rep):
     return res
 
 
+def canonicalise_roles(load):
+    """The rules below speak about the loader's locals by ROLE.  Discover which local plays each role from how it is used
+    (which argument of Arm / setNames / setJointProperties / setOrigins it becomes, which variable walks the chain, which
+    one indexes the per-joint tables) and rename it - in this process' copy of the syntax tree only - to the role's name,
+    so that the rules do not depend on what the maintainer calls these variables."""
+    il = Inliner(load)
+    own = list(walk_own(load.node))
+    calls = [c for c in own if isinstance(c, ast.Call)]
+
+    def one(pred, what):
+        got = [c for c in calls if pred(c)]
+        if len(got) != 1:
+            raise AnalysisError('loadArmFromURDF: %s not recognised (%d candidates)' % (what, len(got)))
+        return got[0]
+
+    def name_of(e, what):
+        for _ in range(4):
+            if isinstance(e, ast.Name) and isinstance(il.single(e.id), (ast.Call, ast.Name)):
+                e = il.single(e.id)         # a temporary holding the argument
+            elif isinstance(e, ast.Call) and norm_text(e.func) in ('np.array', 'np.asarray') and e.args:
+                e = e.args[0]
+            else:
+                break
+        if isinstance(e, ast.Subscript):
+            e = e.value
+        if not isinstance(e, ast.Name):
+            raise AnalysisError('loadArmFromURDF: %s is not a local variable (%s)' % (what, norm_text(e)[:40]))
+        return e.id
+    roles = {}
+    arm_call = one(lambda c: isinstance(c.func, ast.Name) and c.func.id == 'Arm' and len(c.args) == 5, 'the Arm(...) construction')
+    roles[name_of(arm_call.args[1], 'screw table')] = 'screw_list'
+    roles[name_of(arm_call.args[3], 'joint point table')] = 'joint_homes'
+    roles[name_of(arm_call.args[4], 'joint axis table')] = 'joint_axes'
+    sj = one(lambda c: isinstance(c.func, ast.Attribute) and c.func.attr == 'setJointProperties' and len(c.args) >= 2, 'setJointProperties call')
+    roles[name_of(sj.args[0], 'lower limits')] = 'joint_mins'
+    roles[name_of(sj.args[1], 'upper limits')] = 'joint_maxs'
+    sn = one(lambda c: isinstance(c.func, ast.Attribute) and c.func.attr == 'setNames' and len(c.args) == 3, 'setNames call')
+    roles[name_of(sn.args[2], 'joint names')] = 'joint_names'
+    so = one(lambda c: isinstance(c.func, ast.Attribute) and c.func.attr == 'setOrigins' and len(c.args) >= 3, 'setOrigins call')
+    roles[name_of(so.args[1], 'joint poses')] = 'joint_poses'
+    roles[name_of(so.args[2], 'link poses')] = 'link_poses'
+    walkers = {n.test.left.value.id for n in load.body() if isinstance(n, ast.While) and isinstance(n.test, ast.Compare) and isinstance(n.test.left, ast.Attribute)
+               and n.test.left.attr == 'num_children' and isinstance(n.test.left.value, ast.Name)}
+    if len(walkers) != 1:
+        raise AnalysisError('loadArmFromURDF: chain-walking variable not recognised')
+    roles[walkers.pop()] = 'temp_element'
+    inv = {v: k for k, v in roles.items()}
+    idx = set()
+    for n in own:
+        if isinstance(n, ast.Assign) and isinstance(n.targets[0], ast.Subscript) and isinstance(n.targets[0].value, ast.Name) \
+                and n.targets[0].value.id in (inv['joint_axes'], inv['joint_homes']) and isinstance(n.targets[0].slice, ast.Tuple) \
+                and len(n.targets[0].slice.elts) == 2 and isinstance(n.targets[0].slice.elts[1], ast.Name):
+            idx.add(n.targets[0].slice.elts[1].id)
+    if len(idx) != 1:
+        raise AnalysisError('loadArmFromURDF: per-joint column index not recognised')
+    roles[idx.pop()] = 'arrind'
+    for n in own:
+        if isinstance(n, ast.For) and isinstance(n.target, ast.Name) and any(
+                isinstance(x, ast.Assign) and isinstance(x.targets[0], ast.Subscript) and isinstance(x.targets[0].value, ast.Name)
+                and x.targets[0].value.id == inv['screw_list'] for x in n.body):
+            roles[n.target.id] = 'i'
+    if len(set(roles.values())) != len(roles):
+        raise AnalysisError('loadArmFromURDF: one local plays two roles (%s)' % roles)
+    clash = {v for k, v in roles.items() if k != v} & ({n.id for n in own if isinstance(n, ast.Name)} - set(roles))
+    if clash:
+        raise AnalysisError('loadArmFromURDF: role names already used for something else: %s' % sorted(clash))
+    for n in own:
+        if isinstance(n, ast.Name) and n.id in roles:
+            n.id = roles[n.id]
+    return roles
+
+
 def check(model, rep):
     rep.extra['explanation'] = (
         'Definite-assignment (must) analysis of the joint parser over all paths including zero loop iterations, guard dominance '
@@ -197,6 +270,10 @@ def check(model, rep):
         'chain walk, and structural check of the screw construction and of the Arm(...) call.')
     load = model.func(ARM, 'loadArmFromURDF')
     loader_cls = model.cls(ARM, 'URDFLoader')
+    roles = canonicalise_roles(load)
+    rep.note('locals of loadArmFromURDF by role: %s' % {v: k for k, v in sorted(roles.items())})
+    il_load = Inliner(load)
+    KEEP = tuple(roles.values())
     r050(model, rep, rule='R13.0')
     rep.rules['R13.0'] = 'np.<attr> used by the arm module exist in the installed NumPy (an Arm can be constructed)'
 
@@ -265,31 +342,56 @@ def check(model, rep):
 
     # ---------------------------------------------------------------- R13.2
     rep.rule('R13.2', 'joint origin = T(xyz) @ Rz(rpy[2]) @ Ry(rpy[1]) @ Rx(rpy[0])')
-    seq = []
-    for n in sorted((x for x in walk_own(jp.node) if isinstance(x, ast.Assign) and src(x.targets[0]) == 'cg_origin_tm'), key=lambda x: x.lineno):
-        lit = None
-        for c in ast.walk(n.value):
-            if isinstance(c, ast.Call) and src(c.func) == 'tm' and c.args and isinstance(c.args[0], ast.List) and len(c.args[0].elts) == 6:
-                lit = c.args[0].elts
-        compose = isinstance(n.value, ast.BinOp) and isinstance(n.value.op, ast.MatMult) and src(n.value.left) == 'cg_origin_tm'
-        seq.append((compose, [src(e).replace(' ', '') for e in lit] if lit else None))
-    want = [(False, ['cg_origin_xyz[0]', 'cg_origin_xyz[1]', 'cg_origin_xyz[2]', '0', '0', '0']),
-            (True, ['0', '0', '0', '0', '0', 'cg_origin_rpy[2]']),
-            (True, ['0', '0', '0', '0', 'cg_origin_rpy[1]', '0']),
-            (True, ['0', '0', '0', 'cg_origin_rpy[0]', '0', '0'])]
-    rep.ob('R13.2', jp, 'translate(xyz) then yaw (z), pitch (y), roll (x)', seq == want,
-           'origin is composed as %s' % seq)
-    st = [n for n in walk_own(jp.node) if isinstance(n, ast.Assign) and src(n.targets[0]) == '%s.xyz_origin' % elem]
-    rep.ob('R13.2', jp, 'composed origin stored on the joint', len([s for s in st if src(s.value) == 'cg_origin_tm']) >= 1, 'the composed transform is not stored as the joint origin')
-    srcs = {src(n.targets[0]): src(n.value).replace(' ', '') for n in walk_own(jp.node) if isinstance(n, ast.Assign) and src(n.targets[0]) in ('cg_origin_xyz', 'cg_origin_rpy')}
-    ok = srcs.get('cg_origin_xyz') == 'np.array(cg_xyz_raw,dtype=float)' and srcs.get('cg_origin_rpy') == 'np.array(cg_rpy_raw,dtype=float)'
-    unpack = [n for n in walk_own(jp.node) if isinstance(n, ast.Assign) and isinstance(n.targets[0], ast.Tuple) and 'extractOrigin' in src(n.value)]
-    ok = ok and len(unpack) == 1 and [src(t) for t in unpack[0].targets[0].elts] == ['cg_xyz_raw', 'cg_rpy_raw']
+    # the <origin> / <limit> branches of the child loop, by structure: `for CH in <parent>: if CH.tag == '<tag>': ...`
+    par_p = jp.params[1]
+    chl = [n for n in jp.body() if isinstance(n, ast.For) and isinstance(n.target, ast.Name) and src(n.iter) == par_p]
+    if len(chl) != 1:
+        raise AnalysisError('completeJointParse: loop over the joint\'s XML children not recognised')
+    ch = chl[0].target.id
+
+    def branch(tag):
+        for n in chl[0].body:
+            if isinstance(n, ast.If) and norm_text(n.test) in ("%s.tag=='%s'" % (ch, tag), "'%s'==%s.tag" % (tag, ch)):
+                return n
+        return None
+    ob = branch('origin')
+    if ob is None:
+        raise AnalysisError('completeJointParse: <origin> branch not recognised')
+    env, stores = block_env(ob.body)
+    stored = [v for (t, v, st) in stores if norm_text(t) == '%s.xyz_origin' % elem]
+    XYZ = "np.array(extractOrigin(CH)[0], dtype=float)"
+    RPY = "np.array(extractOrigin(CH)[1], dtype=float)"
+    want = ("tm([{x}[0], {x}[1], {x}[2], 0, 0, 0]) @ tm([0, 0, 0, 0, 0, {r}[2]]) @ tm([0, 0, 0, 0, {r}[1], 0]) @ tm([0, 0, 0, {r}[0], 0, 0])"
+            .format(x=XYZ, r=RPY))
+    got = canon_names(stored[-1], {ch: 'CH'}) if stored and stored[-1] is not None else None
+    rep.ob('R13.2', jp, 'translate(xyz) then yaw (z), pitch (y), roll (x); composed origin stored on the joint', got is not None and same_tree(got, want),
+           'the origin stored for a joint is %s; expected T(xyz) @ Rz(rpy[2]) @ Ry(rpy[1]) @ Rx(rpy[0]) with xyz / rpy the first / second result of extractOrigin'
+           % (norm_text(got)[:400] if got is not None else 'not stored in the <origin> branch'), line=ob.lineno)
     eo_ret = [n for n in walk_own(eo.node) if isinstance(n, ast.Return)]
-    ok = ok and len(eo_ret) == 1 and src(eo_ret[0].value).replace(' ', '').strip('()') == 't_origin,r_origin'
-    rep.ob('R13.2', jp, 'xyz / rpy attributes keep their roles from parsing to composition', ok, 'xyz and rpy are mixed up between extraction and use')
-    lim = {src(n.targets[0]).replace(' ', ''): src(n.value).replace(' ', '') for n in walk_own(jp.node) if isinstance(n, ast.Assign) and 'joint_limits' in src(n.targets[0])}
-    rep.ob('R13.2', jp, 'limits: lower -> [0], upper -> [1]', lim == {'%s.joint_limits[0]' % elem: "child.get('lower')", '%s.joint_limits[1]' % elem: "child.get('upper')"},
+    ok = False
+    why = 'extractOrigin does not return (xyz, rpy)'
+    if len(eo_ret) == 1 and isinstance(eo_ret[0].value, ast.Tuple) and len(eo_ret[0].value.elts) == 2 and all(isinstance(x, ast.Name) for x in eo_ret[0].value.elts):
+        # each returned list is read from the attribute of its own name on every path that does not take the zero default
+        ok = True
+        for nm, attr in zip([x.id for x in eo_ret[0].value.elts], ('xyz', 'rpy')):
+            defs_ = [n.value for n in walk_own(eo.node) if isinstance(n, ast.Assign) and src(n.targets[0]) == nm]
+            reads = {c.args[0].value for d in defs_ for c in ast.walk(d) if isinstance(c, ast.Call) and isinstance(c.func, ast.Attribute) and c.func.attr == 'get'
+                     and c.args and isinstance(c.args[0], ast.Constant)}
+            il_eo = Inliner(eo)
+            for d in defs_:
+                for nn in ast.walk(il_eo.expand(d)):
+                    if isinstance(nn, ast.Call) and isinstance(nn.func, ast.Attribute) and nn.func.attr == 'get' and nn.args and isinstance(nn.args[0], ast.Constant):
+                        reads.add(nn.args[0].value)
+            if reads != {attr}:
+                ok = False
+                why = 'result %d of extractOrigin (%s) is read from the attribute(s) %s, expected %r' % (0 if attr == 'xyz' else 1, nm, sorted(reads), attr)
+    rep.ob('R13.2', jp, 'xyz / rpy attributes keep their roles from parsing to composition', ok, why)
+    lb = branch('limit')
+    lim = {}
+    if lb is not None:
+        env_l, stores_l = block_env(lb.body)
+        lim = {norm_text(t): norm_text(canon_names(v, {ch: 'CH'})) for (t, v, st) in stores_l if 'joint_limits' in norm_text(t) and v is not None}
+    rep.ob('R13.2', jp, 'limits: lower -> [0], upper -> [1]', lim == {'%s.joint_limits[0]' % elem: "CH.get('lower')", '%s.joint_limits[1]' % elem: "CH.get('upper')"},
            'joint limit parsing is %s' % lim)
 
     # ---------------------------------------------------------------- R13.3
@@ -364,7 +466,9 @@ def check(model, rep):
            'advance counts per iteration: %s' % sorted({e[0] for e in ends2}), line=walk.lineno)
     cnt_ifs = [n for n in count_loop.body if isinstance(n, ast.If)]
     ok = len(cnt_ifs) == 1 and src(cnt_ifs[0].test).replace(' ', '') == "temp_element.type=='joint'andtemp_element.sub_type!='fixed'" and \
-        [src(s).replace(' ', '') for s in cnt_ifs[0].body] == ['num_dof+=1']
+        len(cnt_ifs[0].body) == 1 and isinstance(cnt_ifs[0].body[0], ast.AugAssign) and isinstance(cnt_ifs[0].body[0].op, ast.Add) \
+        and isinstance(cnt_ifs[0].body[0].target, ast.Name) and src(cnt_ifs[0].body[0].value) == '1' \
+        and all(norm_text(d) == 'np.zeros((3,%s))' % cnt_ifs[0].body[0].target.id for t_ in ('joint_axes', 'joint_homes') for d in il_load.defs(t_))
     first_if = [n for n in walk.body if isinstance(n, ast.If)]
     ok2 = bool(first_if) and src(first_if[0].test).replace(' ', '') == "temp_element.type=='link'ortemp_element.sub_type=='fixed'" and \
         isinstance(first_if[0].body[-1], ast.Continue)
@@ -382,21 +486,23 @@ def check(model, rep):
     rep.ob('R13.4', load, 'axis_i = determineAxis(accumulated pose, joint.axis); point_i = translation of the accumulated pose',
            pose['tables_ok'], pose['tables_msg'])
     da = nested(model, load, 'determineAxis')
-    a = {src(n.targets[0]): src(n.value).replace(' ', '') for n in walk_own(da.node) if isinstance(n, ast.Assign)}
     p0, p1 = da.params
-    ok = a.get('joint_rotation') == 'tm([%s[3],%s[4],%s[5]])' % (p0, p0, p0) and a.get('axis_unit') == 'tm([%s[0],%s[1],%s[2],0,0,0])' % (p1, p1, p1) \
-        and a.get('axis_new') == '(joint_rotation@axis_unit)[0:3]'
-    rep.ob('R13.4', da, 'R(pose) applied to the file axis', ok, 'determineAxis is %s' % a)
+    il_da = Inliner(da)
+    dr = il_da.returns()
+    want = ['(tm([{p}[3], {p}[4], {p}[5]]) @ tm([{a}[0], {a}[1], {a}[2], 0, 0, 0]))[0:3].flatten()'.format(p=p0, a=p1),
+            '(tm([{p}[3], {p}[4], {p}[5]]) @ tm([{a}[0], {a}[1], {a}[2], 0, 0, 0]))[0:3]'.format(p=p0, a=p1)]
+    ok = len(dr) == 1 and il_da.same(dr[0].value, want)
+    rep.ob('R13.4', da, 'R(pose) applied to the file axis', ok, 'determineAxis returns %s' % (il_da.text(dr[0].value) if dr else '?'))
     sc = [n for n in ast.walk(load.node) if isinstance(n, ast.Assign) and src(n.targets[0]).replace(' ', '') == 'screw_list[0:6,i]']
     ok = len(sc) == 1 and src(sc[0].value).replace(' ', '') == 'np.hstack((joint_axes[0:3,i],np.cross(joint_homes[0:3,i],joint_axes[0:3,i])))'
     rep.ob('R13.4', load, 'screw_i = [axis_i ; point_i x axis_i]', ok, 'screw construction is %s' % (src(sc[0].value) if sc else '?'))
     arm_call = [c for c in ast.walk(load.node) if isinstance(c, ast.Call) and src(c.func) == 'Arm']
-    ok = len(arm_call) == 1 and len(arm_call[0].args) == 5 and [src(x).replace(' ', '') for x in arm_call[0].args[:2] + arm_call[0].args[3:]] == ['tm()', 'screw_list', 'joint_homes', 'joint_axes'] \
+    ok = len(arm_call) == 1 and len(arm_call[0].args) == 5 and [il_load.text(x, canon=False, keep=KEEP) for x in arm_call[0].args[:2] + arm_call[0].args[3:]] == ['tm()', 'screw_list', 'joint_homes', 'joint_axes'] \
         and src(arm_call[0].args[2]).replace(' ', '') == pose['run']
     rep.ob('R13.4', load, 'Arm(tm(), screws, last accumulated pose, points, axes)', ok, 'Arm is built with %s' % ([src(x) for x in arm_call[0].args] if arm_call else '?'))
-    sj = [c for c in ast.walk(load.node) if isinstance(c, ast.Call) and src(c.func) == 'arm.setJointProperties']
-    ok = len(sj) == 1 and [src(x).replace(' ', '') for x in sj[0].args[:2]] == ['np.array(joint_mins)', 'np.array(joint_maxs)']
+    sj = [c for c in ast.walk(load.node) if isinstance(c, ast.Call) and isinstance(c.func, ast.Attribute) and c.func.attr == 'setJointProperties']
+    ok = len(sj) == 1 and [il_load.text(x, canon=False, keep=KEEP) for x in sj[0].args[:2]] == ['np.array(joint_mins)', 'np.array(joint_maxs)']
     rep.ob('R13.4', load, 'limits passed as (mins, maxs)', ok, 'setJointProperties receives %s' % ([src(x) for x in sj[0].args[:2]] if sj else '?'))
-    sn = [c for c in ast.walk(load.node) if isinstance(c, ast.Call) and src(c.func) == 'arm.setNames']
+    sn = [c for c in ast.walk(load.node) if isinstance(c, ast.Call) and isinstance(c.func, ast.Attribute) and c.func.attr == 'setNames']
     ok = len(sn) == 1 and len(sn[0].args) == 3 and src(sn[0].args[2]) == 'joint_names'
     rep.ob('R13.4', load, 'joint names passed in file order', ok, 'setNames receives %s' % ([src(x) for x in sn[0].args] if sn else '?'))
